@@ -80,7 +80,7 @@ def points(p, rnd):
 
 
 def day_job(job):
-    iso, seed = job
+    iso, seed, full_env = job
     from _gettsim.config import INTERNAL_PARAMS_GROUPS
     from _gettsim.piecewise_functions import piecewise_polynomial
     from _gettsim.policy_environment import _load_parameter_group_from_yaml, _parse_piecewise_parameters
@@ -110,6 +110,15 @@ def day_job(job):
             ys = [float(piecewise_polynomial(np.float64(x), thresholds=p["thresholds"], rates=p["rates"], intercepts_at_lower_thresholds=p["intercepts_at_lower_thresholds"])) for x in xs]
             events.append({"k": "eval", "param": f"{g}.{k}", "xs": [dec(x) for x in xs], "ys": [dec(y) for y in ys]})
             meta.append({"param": f"{g}.{k}", "date": iso, "what": "piecewise_polynomial", "xs": xs[:6]})
+            # values derived from a schedule at set-up time (policy_environment._parse_einführungsfaktor…,
+            # _parse_vorsorgepauschale_rentenv_anteil): the environment must hold Eval(schedule, year)
+            if full_env and d.year >= 2005 and g == "eink_st_abzuege" and k in ("einführungsfaktor", "vorsorgepauschale_rentenv_anteil"):
+                envp = gs.env(iso)[0]["eink_st_abzuege"]
+                key = "einführungsfaktor_vorsorgeaufw_alter_ab_2005" if k == "einführungsfaktor" else "vorsorgepauschale_rentenv_anteil"
+                val = envp.get(key)
+                if isinstance(val, (int, float, np.floating)):
+                    events.append({"k": "eval", "param": f"{g}.{k}", "xs": [dec(float(d.year))], "ys": [dec(float(val))]})
+                    meta.append({"param": f"{g}.{k}", "date": iso, "what": f"set-up derived value {key}"})
             if k == "eink_st_tarif":
                 from _gettsim.taxes.eink_st import _eink_st_tarif
 
@@ -143,7 +152,8 @@ def run(tier):
     if quick and len(days) > 48:
         keep = set(days[-30:]) | set(rnd.sample(days[:-30], 18))
         days = sorted(keep)
-    outs = pool_map(day_job, [(d, rnd.randrange(1 << 30)) for d in days])
+    full = set(rnd.sample(days, min(len(days), 6 if quick else 40))) | {d for d in days if d.endswith('-01-01') and d >= '2021-01-01'}
+    outs = pool_map(day_job, [(d, rnd.randrange(1 << 30), d in full) for d in days])
     traces = []
     for ev, meta in outs:
         if ev:
